@@ -7,10 +7,11 @@ import (
 )
 
 // extractLink: link.go items
-//   start_sets_linger_before_writer — Start calls SetLinger(0) on source and dest (for a ResetToxic in the chain) before `go link.write`
-//   sent_counted_on_error           — whether write() adds to the sent counter also when io.Copy failed
-//   metric_labels                   — the label values of the two counters, in order
-//   remove_flush_timeout_ns         — the WriteOutput timeout used while removing a toxic
+//
+//	start_sets_linger_before_writer — Start calls SetLinger(0) on source and dest (for a ResetToxic in the chain) before `go link.write`
+//	sent_counted_on_error           — whether write() adds to the sent counter also when io.Copy failed
+//	metric_labels                   — the label values of the two counters, in order
+//	remove_flush_timeout_ns         — the WriteOutput timeout used while removing a toxic
 func extractLink(repo string, o *out) {
 	p, err := loadPkg(repo)
 	if err != nil {
